@@ -82,6 +82,29 @@ class Engine(object):
                     todo.append(mod.imports[head] + bn[len(head):])
         return out
 
+    def init_literal_type(self, cls, f):
+        """type of `self.<f> = <literal>` in the __init__ of exactly this class: 'bool' / 'int' / 'str', else None"""
+        r = self.repo.resolve(cls)
+        if not r or r[0] != "class":
+            return None
+        for node in r[1].classes[r[2]].body:
+            if isinstance(node, ast.FunctionDef) and node.name == "__init__":
+                found = None
+                for st in ast.walk(node):
+                    if isinstance(st, ast.Assign) and len(st.targets) == 1:
+                        t = st.targets[0]
+                        if isinstance(t, ast.Attribute) and isinstance(t.value, ast.Name) and t.value.id == "self" and t.attr == f:
+                            v = st.value
+                            if isinstance(v, ast.Constant) and type(v.value) in (bool, int, str):
+                                ty = {bool: "bool", int: "int", str: "str"}[type(v.value)]
+                                if found not in (None, ty):
+                                    return None
+                                found = ty
+                            else:
+                                return None
+                return found
+        return None
+
     def find_method(self, cls, name):
         for c in self.mro(cls):
             r = self.repo.resolve(c + "." + name)
